@@ -303,9 +303,25 @@ impl Array {
                     .shape()
                     .to_addr_usize()
             {
-                // NOTE: The "length" property is the first element.
-                borrowed_object.properties_mut().storage[0] = JsValue::new(len);
-                return Ok(());
+                // Storing into the slot is `ArraySetLength` only if there is nothing to delete, i.e. no
+                // element at or above the new length (an array handed back by a species / custom
+                // constructor may be longer than the result that is written into it).
+                let nothing_to_delete = match &borrowed_object.properties().indexed_properties {
+                    IndexedProperties::DenseI32(dense) => dense.len() as u64 <= len,
+                    IndexedProperties::DenseF64(dense) => dense.len() as u64 <= len,
+                    IndexedProperties::DenseElement(dense) => dense.len() as u64 <= len,
+                    IndexedProperties::SparseElement(map) => {
+                        map.keys().all(|&index| u64::from(index) < len)
+                    }
+                    IndexedProperties::SparseProperty(map) => {
+                        map.keys().all(|&index| u64::from(index) < len)
+                    }
+                };
+                if nothing_to_delete {
+                    // NOTE: The "length" property is the first element.
+                    borrowed_object.properties_mut().storage[0] = JsValue::new(len);
+                    return Ok(());
+                }
             }
         }
 
